@@ -194,7 +194,7 @@ func (r *hcRun) apply(st Step) error {
 			}
 			r.wdone <- err
 		}()
-		p := parkedFor("write.appended", nil, 4*time.Second)
+		p := parkedFor("write.appended", func(p *sim.Parked) bool { return len(p.Args) > 0 && sim.K(p.Args[0]) == sim.K(store) }, 4*time.Second)
 		if p == nil {
 			return fmt.Errorf("the write did not reach its append")
 		}
@@ -302,6 +302,14 @@ func (r *hcRun) run(b Behaviour, idx int) {
 		return
 	}
 	defer func() {
+		// a behaviour may end while a write is held: let it finish before the instance goes
+		sim.TheHub.ReleaseAll()
+		if r.writing && r.wdone != nil {
+			select {
+			case <-r.wdone:
+			case <-time.After(5 * time.Second):
+			}
+		}
 		if r.na != nil {
 			_ = r.na.Close()
 		}
